@@ -3,6 +3,7 @@
 mod c06;
 mod c14;
 mod c18;
+mod plan;
 mod sql;
 mod util;
 
